@@ -26,8 +26,8 @@ CHECKS = {
         "partial": "per-message transformation is proved for every world satisfying the codec/compressor laws; whole request streams on the re-encoding "
                    "path are proved to reach the backend as exactly the converted messages in order (any read sizes), and on the re-framing path "
                    "(client and backend with envelopes) as exactly the client's payloads under the backend's envelopes (any read sizes, any segmentation); in the response direction a well-formed stream of backend "
-                   "frames is proved to reach a streaming client as exactly its converted messages under the client's envelopes (re-encoding path) resp. as its untouched payloads under the client's envelopes (re-framing path); for "
-                   "buffered (unary/REST) clients, end-of-stream frames and write splits on the re-framing path whole-stream fidelity is checked against ground truth on fake codecs (raw/hexa/rev) and RLE compressors, not on real proto/json/gzip",
+                   "frames is proved to reach a streaming client as exactly its converted messages under the client's envelopes (re-encoding path) resp. as its untouched payloads under the client's envelopes (re-framing path, for every split of the stream across Write calls); for "
+                   "buffered (unary/REST) clients and end-of-stream frames whole-stream fidelity is checked against ground truth on fake codecs (raw/hexa/rev) and RLE compressors, not on real proto/json/gzip",
         "assumptions": E2E_ASSUME + ["WorldLaws (decode∘encode = id, decompress∘compress = id, compressed output non-empty) are hypotheses"],
     },
     "C02": {
@@ -51,8 +51,8 @@ CHECKS = {
                    "transcoder's message reader (the sequence of enveloped request messages and its final condition); "
                    "handler read-buffer sizes are proved irrelevant for the re-encoding reader (any sizes >= 1, same bytes and final error) and splitting "
                    "the backend's output across Write calls for the re-encoding writer; read sizes and segmentation are proved irrelevant for the re-framing "
-                   "reader as well (client and backend with envelopes); for the re-framing "
-                   "writer's write pieces and flushes it is checked metamorphically on model and implementation",
+                   "reader as well (client and backend with envelopes), and so is the split of a well-formed response across Write calls for the re-framing "
+                   "writer (any pieces, unbuffered client); for malformed output and buffered clients on that writer it is checked metamorphically on model and implementation",
         "assumptions": E2E_ASSUME,
     },
     "C09": {
